@@ -117,7 +117,82 @@ def reader(name, cfg, storage, r, stop, errq):
         errq.put(f"reader {r}: {type(e).__name__}: {e}")
 
 
+def seq_model():
+    """single-process scripts (stores that succeed, stores whose write raises, second stores, reads, len, is_contiguous, iteration,
+    flush) on the real storage beside the sequential model `Model/StorageSeq.lean` (driver machine `storageseq`)"""
+    import random
+    from windpyutils.parallel.storage import TextFileStorage
+    sys.path.insert(0, os.path.dirname(os.path.dirname(os.path.abspath(__file__))))
+    from harness import core
+    rng = random.Random(int(os.environ.get("VERIF_SEED", "20260929")) * 7919 + 14)
+    problems = []
+    n_scripts = 0
+    for _ in range(60):
+        presize = rng.choice([0, 0, 2, 5])
+        script = [f"init {presize}"]
+        for _ in range(rng.randint(1, 25)):
+            r = rng.random()
+            g = rng.randrange(8)
+            if r < 0.45:
+                script.append(f"store {g} {rng.randrange(100)} {0 if rng.random() < 0.25 else 1}")
+            elif r < 0.65:
+                script.append(f"read {g}")
+            elif r < 0.75:
+                script.append("len")
+            elif r < 0.85:
+                script.append("contig")
+            elif r < 0.95:
+                script.append("iter")
+            else:
+                script.append("flush")
+        model = [l.split(" # ")[0] for l in core.run_driver("storageseq", ["reset"] + script)[1:]]
+        d = tempfile.mkdtemp(prefix="c14seq_", dir=os.environ.get("VERIF_SCRATCH") or None)
+        impl = []
+        try:
+            st = None
+            for op in script:
+                w = op.split()
+                try:
+                    if w[0] == "init":
+                        st = TextFileStorage(d, number_of_data=int(w[1]) or None); impl.append("ok")
+                    elif w[0] == "store":
+                        st[int(w[1])] = f"T{w[2]}" + ("" if w[3] == "1" else "\ud800"); impl.append("ok")
+                    elif w[0] == "read":
+                        impl.append("text:" + st[int(w[1])])
+                    elif w[0] == "len":
+                        impl.append(f"nat:{len(st)}")
+                    elif w[0] == "contig":
+                        impl.append(f"bool:{1 if st.is_contiguous() else 0}")
+                    elif w[0] == "iter":
+                        impl.append("texts:" + ",".join(st))
+                    elif w[0] == "flush":
+                        st.close(); st.flush(); impl.append("ok")
+                except UnicodeError:
+                    impl.append("raised")
+                except ValueError:
+                    impl.append("ValueError")
+                except IndexError:
+                    impl.append("IndexError")
+            if st is not None:
+                st.close()
+        finally:
+            shutil.rmtree(d, ignore_errors=True)
+        n_scripts += 1
+        if impl != model:
+            k = next(i for i, (a, b) in enumerate(zip(impl, model)) if a != b)
+            problems.append(f"script {script[:k + 1]}: the storage answers {impl[k]!r} to `{script[k]}`, the sequential model "
+                            f"(a failed store leaves the identifier free; a second store raises ValueError) gives {model[k]!r}")
+            break
+    print(f"STATS scripts={n_scripts}")
+    for p_ in problems[:3]:
+        print("WRONG seq_model:", p_)
+    print("DONE" if not problems else "FAILED")
+    return 0 if not problems else 1
+
+
 def main(name):
+    if name == "seq_model":
+        return seq_model()
     if name == "ascii_locale" and os.environ.get("C14_ASCII_CHILD") != "1":
         import subprocess
         env = dict(os.environ, LC_ALL="C", LANG="C", PYTHONUTF8="0", PYTHONCOERCECLOCALE="0", C14_ASCII_CHILD="1",
